@@ -2,7 +2,7 @@
     Only statements; every proof is [exact] of a lemma in Proofs/C13_*.v. The machines are
     Model/Lazy.v (hand-written; tied to /repo by the correspondence of every run). *)
 From Coq Require Import List Bool Arith.
-From Geo Require Import Model.Lazy Proofs.C13_Index Proofs.C13_Loop Proofs.C13_EdgeQuery.
+From Geo Require Import Model.Lazy Proofs.C13_Index Proofs.C13_Loop Proofs.C13_EdgeQuery Proofs.C13_Polygon.
 Import ListNotations.
 
 (** ShapeIndex: for EVERY finite history of Add / Build / Query / Reset the run never hangs or
@@ -82,6 +82,25 @@ Theorem loop_reset_old_refuted :
     = Ok (l, [([1; 2; 3; 4], false, [(0, ([1; 2; 3; 4], false))]); ([4; 3; 2; 1], true, [])]).
 Proof. exact C13_Loop.loop_reset_old_refuted. Qed.
 Print Assumptions loop_reset_old_refuted.
+
+(** Polygon: after any number of Inverts (whatever reordering Invert applies to the loops) the
+    polygon equals the one freshly built from its current loops: same edge-offset table, every
+    Edge/ChainPosition lookup lands in the right loop, and its own index is the canonical one. *)
+Theorem polygon_invert_matches_fresh : forall (V : Type) (reorder : list (list V) -> list (list V)) n loops,
+  let p := poly_iter reorder false n (poly_new loops) in
+  p = poly_new (ploops p) /\
+  (forall e, e < total_edges (ploops p) -> pedge p e = locate_lin (map (@length V) (ploops p)) 0 e) /\
+  exists ix, run (istep (apply (fun _ : unit => ploops p)) index_reset) (pindex p) [IQuery]
+             = Ok (ix, [canonical (fun _ : unit => ploops p) [tt]]).
+Proof. exact @C13_Polygon.polygon_invert_matches_fresh. Qed.
+Print Assumptions polygon_invert_matches_fresh.
+
+(** a table kept because it "already has one entry per loop" is refuted *)
+Theorem polygon_stale_table_refuted :
+  exists e, let p := poly_invert toy_reorder true (poly_new toy_loops) in
+            pedge p e <> locate_lin (map (@length nat) (ploops p)) 0 e.
+Proof. exact C13_Polygon.polygon_stale_table_refuted. Qed.
+Print Assumptions polygon_stale_table_refuted.
 
 (** EdgeQuery: every history on one query object; every answer is that of a fresh object
     configured with the options the caller last set, and the caller's options are untouched. *)
